@@ -67,6 +67,11 @@ def conditions(tier):
                                      name='arrays[%s,pos=%d,type=%s]' % (names[ck], pos, pipe.USER_TYPES[tov]),
                                      bounds='(array length/fixed-size/zero-terminated) x (element-type) on %d type kinds, '
                                             '(type %s)' % (NT, pipe.USER_TYPES[tov]), finding_classifier=_classify))
+    conds.append(ch.Cond('h_c07', 'arrays', [('ckind', 'int'), ('pos', 'int'), ('tkind', 'int'), ('length', 'int'), ('zt', 'int')],
+                         pre=['0 <= ckind <= 3', '0 <= pos <= 2', '0 <= tkind < %d' % NT, '0 <= length <= 1', 'zt in (0, 3)'],
+                         fixed=dict(direction=0, fixed=2, elt=0, elt2=0, type_override=0), timeout=T,
+                         name='arrays[fixed-size=0]', bounds='(array fixed-size=0 [length] [zero-terminated=1]) on %d type kinds' % NT,
+                         finding_classifier=_classify))
     conds.append(ch.Cond('h_c07', 'arrays', [('ckind', 'int'), ('pos', 'int'), ('tkind', 'int'), ('type_override', 'int')],
                          pre=['0 <= ckind <= 3', '0 <= pos <= 2', 'tkind in (10, 11)', 'type_override in (8, 11)'],
                          fixed=dict(direction=0, length=0, fixed=0, zt=4, elt=0, elt2=0), timeout=T,
@@ -152,8 +157,10 @@ def run(report, tier, seed, only=None):
         'namespace models come from the real scanner pipeline on scenario families (C lexer replaced by declaration '
         'records, dump subprocess by a fake tree, comment blocks built as objects)',
         'the XML is parsed with xml.etree (as the project reader does)',
-        'oracle: the bytes written after reading back equal the bytes written first, and a second cycle is again a '
-        'fixed point')
+        'oracle: the bytes written after reading back equal the bytes written first, a second cycle is again a '
+        'fixed point, and the model read back equals the written model on names, kinds, types (incl. element types, '
+        'array attributes), directions, transfers, nullability, scopes, indices, flags, documentation, versions and '
+        'attributes (harness/py/h_c07.py: model_difference)')
     from vlib import gistub  # noqa: F401
     bad = _cycle_repo_files(report)
     if bad:
